@@ -10,9 +10,9 @@
 
    A. Go slice / index expressions: exact preconditions.
    B. memory backend paging slices (memory.go read / ReadAuthorizationModels / ListStores /
-      ReadChanges) and the Read request path: the only way to a panic is a continuation token
-      whose offset is negative (finding F5) -- full statement refuted, partial statement proved,
-      trigger characterised exactly.
+      ReadChanges) and the Read request path.  Finding F5 (a continuation token with a negative
+      offset reached matches[from:] and panicked) is repaired in /repo by commit 3cab6a7; the
+      model follows the repaired code and the full statement no_panic_read_request is proved.
    C. PbValue.WriteTo (explicit stack): never out of fuel, bytes = recursive spec, every node
       popped exactly once in pre-order, stack height <= node count.
    D. depth-guarded recursion (generic) and its instance, the default Check engine model;
@@ -81,18 +81,19 @@ Proof. split; reflexivity. Qed.
 (* B. the paging slices of the memory backend                           *)
 (* ================================================================== *)
 
-(* memory.go read(): matches[from:] and matches[:to] panic exactly for a negative offset or a
-   negative page size *)
+(* memory.go read() as repaired by 3cab6a7 (negative offset rejected, offset clamped): the only
+   panic left at the storage level is a negative page size together with a non-negative offset *)
 Theorem no_panic_iff : forall (A : Type) (matches : list A) (from to : Z),
-  page_slice matches from to <> Panic <-> (0 <= from /\ 0 <= to)%Z.
+  page_slice matches from to <> Panic <-> (from < 0 \/ 0 <= to)%Z.
 Proof. exact @NoPanicProofs.no_panic_iff. Qed.
 Print Assumptions no_panic_iff.
 Example no_panic_iff_ex :
-  page_slice [10; 11; 12; 13; 14] 2 2 = Ok ([12; 13], Some 4%Z) /\
-  page_slice [10; 11; 12; 13; 14] 99 2 = Ok ([10; 11], Some 101%Z) /\   (* F5a: restart, C14 *)
-  page_slice [10; 11; 12; 13; 14] (-1) 2 = Panic /\                       (* F5b *)
+  page_slice [10; 11; 12; 13; 14] 2 2 = Ok (Some ([12; 13], Some 4%Z)) /\
+  page_slice [10; 11; 12; 13; 14] 99 2 = Ok (Some ([], None)) /\          (* was F5a: restart *)
+  page_slice [10; 11; 12; 13; 14] (-1) 2 = Ok None /\                      (* was F5b: panic *)
+  page_slice [10; 11; 12; 13; 14] (-1) (-3) = Ok None /\
   page_slice [10; 11; 12; 13; 14] 0 (-3) = Panic /\
-  page_slice (@nil N) (-1) 2 = Panic.
+  page_slice (@nil N) (-1) 2 = Ok None.
 Proof. repeat split; reflexivity. Qed.
 
 Theorem page_slice_no_fuel : forall (A : Type) (matches : list A) (from to : Z),
@@ -100,16 +101,26 @@ Theorem page_slice_no_fuel : forall (A : Type) (matches : list A) (from to : Z),
 Proof. exact @NoPanicProofs.page_slice_no_fuel. Qed.
 Print Assumptions page_slice_no_fuel.
 
+Theorem page_slice_negative_offset : forall (A : Type) (matches : list A) (from to : Z),
+  (from < 0)%Z -> page_slice matches from to = Ok None.
+Proof. exact @NoPanicProofs.page_slice_negative_offset. Qed.
+Print Assumptions page_slice_negative_offset.
+
 Theorem page_slice_in_range : forall (A : Type) (matches : list A) (from to : Z),
   (0 <= from <= zlen matches)%Z -> (0 < to)%Z ->
   page_slice matches from to =
-  Ok (firstn (Z.to_nat to) (skipn (Z.to_nat from) matches),
-      if (to <? zlen matches - from)%Z then Some (Paging.wrap64 (from + to)) else None).
+  Ok (Some (firstn (Z.to_nat to) (skipn (Z.to_nat from) matches),
+            if (to <? zlen matches - from)%Z then Some (Paging.wrap64 (from + to)) else None)).
 Proof. exact @NoPanicProofs.page_slice_in_range. Qed.
 Print Assumptions page_slice_in_range.
 Example page_slice_in_range_ex :
-  (0 <= 4 <= zlen [10; 11; 12; 13; 14])%Z /\ page_slice [10; 11; 12; 13; 14] 4 2 = Ok ([14], None).
+  (0 <= 4 <= zlen [10; 11; 12; 13; 14])%Z /\ page_slice [10; 11; 12; 13; 14] 4 2 = Ok (Some ([14], None)).
 Proof. split; [unfold zlen; cbn; lia | reflexivity]. Qed.
+
+Theorem page_slice_beyond_end : forall (A : Type) (matches : list A) (from to : Z),
+  (zlen matches < from)%Z -> (0 <= to)%Z -> page_slice matches from to = Ok (Some ([], None)).
+Proof. exact @NoPanicProofs.page_slice_beyond_end. Qed.
+Print Assumptions page_slice_beyond_end.
 
 (* ReadAuthorizationModels / ListStores clamp the offset: no token offset and no page size can
    make rows[from:to] panic *)
@@ -130,50 +141,32 @@ Print Assumptions no_panic_changes_slice.
 Example changes_slice_ex : changes_slice [1; 2; 3] 2 = Ok [1; 2] /\ changes_slice [1; 2; 3] (-1) = Ok [1; 2; 3].
 Proof. split; reflexivity. Qed.
 
-(* THE FULL-STRENGTH STATEMENT for the Read request path would be
-     forall matches req_ps tok, read_request_mem matches req_ps tok <> Panic.
-   The faithful model refutes it (finding F5, flag readpage_negative_offset_panic): *)
-Theorem no_panic_read_request_refuted :
-  exists (matches : list N) (req_ps : Z) (tok : bytes),
-    read_request_mem matches req_ps tok = Panic.
-Proof. exact NoPanicProofs.no_panic_read_request_refuted. Qed.
-Print Assumptions no_panic_read_request_refuted.
-
-(* exactly which tokens: those whose offset part parses (strconv.Atoi) to a negative integer;
-   the page size of the request cannot contribute (NewPaginationOptions makes it positive) *)
-Theorem read_request_panic_iff : forall (A : Type) (matches : list A) (req_ps : Z) (tok : bytes),
-  read_request_mem matches req_ps tok = Panic <-> negative_offset_token tok = true.
-Proof. exact @NoPanicProofs.read_request_panic_iff. Qed.
-Print Assumptions read_request_panic_iff.
-(* "-1|" , "-9223372036854775808|x" trigger; "1|", "", "-|", "-1" (no separator), "+1|" do not *)
-Example read_request_panic_ex :
-  negative_offset_token [45; 49; 124] = true /\
-  negative_offset_token ([45; 57; 50; 50; 51; 51; 55; 50; 48; 51; 54; 56; 53; 52; 55; 55; 53; 56; 48; 56; 124; 120]) = true /\
-  negative_offset_token [49; 124] = false /\ negative_offset_token [] = false /\
-  negative_offset_token [45; 124] = false /\ negative_offset_token [45; 49] = false /\
-  negative_offset_token [43; 49; 124] = false /\
-  read_request_mem [10; 11; 12] (-4) [49; 124] = Ok (Some ([11; 12], None)).
+(* THE FULL-STRENGTH STATEMENT for the Read request path: no listing, no page size and no
+   continuation token makes the request-level read panic.  It was refuted by the code before
+   commit 3cab6a7 (finding F5, token "-1|"); it holds for the repaired code. *)
+Theorem no_panic_read_request : forall (A : Type) (matches : list A) (req_ps : Z) (tok : bytes),
+  read_request_mem matches req_ps tok <> Panic.
+Proof. exact @NoPanicProofs.no_panic_read_request. Qed.
+Print Assumptions no_panic_read_request.
+(* the old witnesses "-1|" (on an empty store too) and "-9223372036854775808|x" *)
+Example no_panic_read_request_ex :
+  read_request_mem (@nil N) 2 [45; 49; 124] = Ok None /\
+  read_request_mem [10; 11; 12] (-4) [45; 57; 50; 50; 51; 51; 55; 50; 48; 51; 54; 56; 53; 52; 55; 55; 53; 56; 48; 56; 124; 120] = Ok None /\
+  read_request_mem [10; 11; 12] (-4) [49; 124] = Ok (Some ([11; 12], None)) /\
+  read_request_mem [10; 11; 12] 2 [57; 57; 124] = Ok (Some ([], None)).
 Proof. repeat split; vm_compute; reflexivity. Qed.
 
-(* missing part of the full statement: tokens with negative_offset_token tok = true *)
-Theorem no_panic_read_request_partial : forall (A : Type) (matches : list A) (req_ps : Z) (tok : bytes),
-  negative_offset_token tok = false -> read_request_mem matches req_ps tok <> Panic.
-Proof. exact @NoPanicProofs.no_panic_read_request_partial. Qed.
-Print Assumptions no_panic_read_request_partial.
-Example no_panic_read_request_partial_ex :
-  negative_offset_token [57; 57; 124] = false /\
-  read_request_mem [10; 11; 12] 2 [57; 57; 124] = Ok (Some ([10; 11], Some 101%Z)).
-Proof. split; vm_compute; reflexivity. Qed.
-
-(* the storage-level function is the C14 model's page_offset (which the C14 run ties to memory.go) *)
-Theorem read_page_mem_is_page_offset : forall (A : Type) (l : list A) (size : N) (from : bytes),
-  Paging.page_offset l size from = to_paging (read_page_mem l (Z.of_N size) from).
-Proof. exact @NoPanicProofs.read_page_mem_is_page_offset. Qed.
-Print Assumptions read_page_mem_is_page_offset.
-Example read_page_mem_is_page_offset_ex :
-  Paging.page_offset [10; 11; 12] 2 [45; 49] = Paging.Panic /\
-  Paging.page_offset [10; 11; 12] 2 [49] = Paging.Page [11; 12] [].
-Proof. split; vm_compute; reflexivity. Qed.
+(* the tokens whose offset part parses (strconv.Atoi) to a negative integer get an error answer *)
+Theorem read_request_rejects_negative_offset : forall (A : Type) (matches : list A) (req_ps : Z) (tok : bytes),
+  negative_offset_token tok = true -> read_request_mem matches req_ps tok = Ok None.
+Proof. exact @NoPanicProofs.read_request_rejects_negative_offset. Qed.
+Print Assumptions read_request_rejects_negative_offset.
+(* "-1|" is such a token; "1|", "", "-|", "-1" (no separator), "+1|" are not *)
+Example negative_offset_token_ex :
+  negative_offset_token [45; 49; 124] = true /\ negative_offset_token [49; 124] = false /\
+  negative_offset_token [] = false /\ negative_offset_token [45; 124] = false /\
+  negative_offset_token [45; 49] = false /\ negative_offset_token [43; 49; 124] = false.
+Proof. repeat split; vm_compute; reflexivity. Qed.
 
 (* ================================================================== *)
 (* C. PbValue.WriteTo: the explicit-stack walk                          *)
@@ -189,11 +182,11 @@ Theorem walk_eq_recursive : forall (v : KeyEnc.pbval) (r : wres),
 Proof. exact NoPanicProofs.walk_eq_recursive. Qed.
 Print Assumptions walk_eq_recursive.
 
-(* the instrumented walk is C24's pb_walk with the instrumentation erased *)
-Theorem walk_i_erases_to_pb_walk : forall fuel stack acc vis maxh,
-  option_map wr_bytes (walk_i fuel stack acc vis maxh) = KeyEnc.pb_walk fuel (map snd stack) acc.
-Proof. exact NoPanicProofs.walk_i_erases_to_pb_walk. Qed.
-Print Assumptions walk_i_erases_to_pb_walk.
+(* the instrumented walk emits what C24's model of the same loop emits *)
+Theorem walk_agrees_with_c24 : forall (v : KeyEnc.pbval) (r : wres),
+  pb_write_i v = Ok r -> KeyEnc.pb_write_outcome v = KeyEnc.Bytes (wr_bytes r).
+Proof. exact NoPanicProofs.walk_agrees_with_c24. Qed.
+Print Assumptions walk_agrees_with_c24.
 
 Theorem walk_visits_each_node_once : forall (v : KeyEnc.pbval) (r : wres),
   pb_write_i v = Ok r ->
